@@ -153,6 +153,29 @@ CLAIMED = {
         technique='symbolic-term dataflow identity over MIR with closure and call inlining (static analysis)',
         engine='C',
     ),
+    'C06': dict(
+        category='other',
+        text='Claimed in part (structural, all values): every public resolve / resolved / into_resolved entry point of both families reaches the single generic '
+             'RiRefBufImpl::resolve in the monomorphic instance graph and no implementor overrides it or a mutator it uses; resolved(base) is into_resolved(self.to_owned(), base); '
+             'has-scheme typestate of resolve() over every CFG path: a path either found a scheme in the reference (scanner result, C02) or first calls set_scheme(Some(base.scheme())), '
+             'every later call on self is a frame-preserving mutator (C05/C09 frame keeps the scheme) and no set_scheme(None) is reachable, so the unchecked re-typing of the result as Uri/Iri '
+             'is justified (with C13: reference ∩ has-scheme = full, and C04: mutators preserve validity); the base is only read (shared reference to a plain text newtype); URI and IRI twins agree.',
+        design_ref='DESIGN.md §4 C06',
+        note='NOT decided: that the text written on each path equals the RFC 3986 §5.2.2 result (merge + remove_dot_segments over run-time segment lists), nor idempotence; those quantify over run-time values.',
+        technique='instance-graph reachability + CFG path enumeration (typestate) + sibling agreement (static analysis)',
+        engine='C',
+    ),
+    'C16': dict(
+        category='other',
+        text='Claimed in part, base() only, for all values: (1) Engine A lemma on the RFC automata of the four RI types: every prefix of a valid value that ends at its path start or right after a "/" of its path '
+             'is a valid value of the same type with no query and no fragment; (2) PathImpl::directory, on every symbolic path of its MIR (loop havocked), returns the whole (empty) path, the EMPTY constant or a prefix '
+             'bytes[..=i] whose last byte is provably "/"; (3) RiRefImpl::base returns bytes[.. find_path(bytes,0).start + len(directory(path))] of its own text — decided semantically over affine terms, so equivalent '
+             're-arrangements pass; (4) the six typed base() wrappers re-wrap exactly that slice (unsafe-site class LEMMA).',
+        design_ref='DESIGN.md §4 C16',
+        note='NOT decided: suffix() (a prefix relation over normalised segment lists — run-time values). Relies on C02 for find_path.',
+        technique='automata inclusion lemma + path-sensitive symbolic execution of MIR over affine terms (static analysis)',
+        engine='A+D',
+    ),
     'C17': dict(
         category='other',
         text='Pairing rule on the MIR of the four proc-macro functions: the literal\'s value() flows unmodified into exactly one call of the run-time validating constructor '
